@@ -157,9 +157,15 @@ func (m *expirationMap[V]) cleanup(store store[V], policy *defaultPolicy[V], onE
 				continue
 			}
 
+			// The entry can be re-written between the check above and its
+			// removal: remove it only if it is still expired, atomically, and
+			// release its cost only if it was removed.
 			cost := policy.Cost(key)
+			_, value, expr, ok := store.DelExpired(key, conflict, now)
+			if !ok {
+				continue
+			}
 			policy.Del(key)
-			_, value := store.Del(key, conflict)
 
 			if onEvict != nil {
 				onEvict(&Item[V]{Key: key,
